@@ -666,7 +666,7 @@ def processCustom (env : CharEnv) (L : Lexicon) (custom : List (Str × Str)) : M
     let name := lower k
     if !(Rx.isMatch env L.reCustom name) then .error { kind := .badCustomName, pattern := [], offset := 0 }
     else
-      let key := cssUnescape env L name
+      let key := lower (cssUnescape env L name)
       if acc.any (fun e => e.1 == key) then .error { kind := .customCollision, pattern := [], offset := 0 }
       else .ok (acc.set key (.src v))) []
 
